@@ -472,6 +472,24 @@ func (c *Ctx) run() {
 			c.stableFV[fv.Name()] = true
 		}
 	}
+	// captured variables are distinct variables: their cells do not alias and are not nil
+	{
+		var cells []string
+		for _, fv := range fn.FreeVars {
+			v := c.vals[fv]
+			if v == nil || v.K != VScalar || (v.Loc != nil && v.Loc.Kind == LConst) {
+				continue
+			}
+			if _, isPtr := fv.Type().Underlying().(*types.Pointer); !isPtr || c.scalarSort(fv.Type()) != "Int" {
+				continue
+			}
+			c.asserts = append(c.asserts, sNot(sEq(v.S, "0")))
+			for _, o := range cells {
+				c.asserts = append(c.asserts, sNot(sEq(v.S, o)))
+			}
+			cells = append(cells, v.S)
+		}
+	}
 	c.entry = st.clone()
 	// requires
 	for i, r := range c.con.Requires {
@@ -774,6 +792,11 @@ func (c *Ctx) bindLoopNames(env *Env, h *ssa.BasicBlock, from *State, edgeIdx in
 		}
 		env.names[phi.Comment] = v
 		env.names[phi.Name()] = v
+		if phi.Comment == "rangeint.iter" {
+			// `for i := range n` over an integer: the loop is entered with the test already
+			// passed; contracts name the iteration counter `rangeiter`
+			env.names["rangeiter"] = v
+		}
 	}
 }
 
